@@ -239,10 +239,10 @@ static uint8_t addHandlerCfg(plan::Plan* p, Rng& r, bool allowReadOnly, bool all
            hexByte(own).c_str(), readOnly ? 1 : 0, answer ? 1 : 0, locks[r.below(5)], r.chance(0.2) ? 1 : 0, static_cast<int>(r.below(4)),
            static_cast<int>(r.below(3)), r.chance(0.2) ? 10 : 0, enhanced ? 1 : 0);
   p->add(buf);
-  static const int batches[] = {0, 0, 0, 0, 3000, 8000, 16000};
+  static const int batches[] = {0, 0, 0, 0, 0, 0, 3000, 3000, 8000, 8000, 16000, 16000, 25000, 40000};
   snprintf(buf, sizeof(buf), "cfg rxlat=%d txlat=%d synperiod=%d arbdelay=%d chunk=%d batch=%d enhplain=%d", static_cast<int>(r.below(2500)),
            static_cast<int>(r.below(1000)), 36000 + static_cast<int>(r.below(12000)), 50 + static_cast<int>(r.below(1500)), static_cast<int>(r.below(3)),
-           batches[r.below(7)], r.chance(0.5) ? 100 : static_cast<int>(r.below(101)));
+           batches[r.below(14)], r.chance(0.5) ? 100 : static_cast<int>(r.below(101)));
   p->add(buf);
   return own;
 }
@@ -301,7 +301,7 @@ static plan::Plan genC01a(uint64_t seed, const std::string& tier) {
   Rng r(seed);
   plan::Plan p;
   addKernelCfg(&p, r, seed, "c01a", false);
-  uint8_t own = addHandlerCfg(&p, r, true, false);
+  uint8_t own = addHandlerCfg(&p, r, true, true);
   int n = tier == "thorough" ? 10 + static_cast<int>(r.below(50)) : 5 + static_cast<int>(r.below(30));
   addTraffic(&p, r, n, own, 0.4);
   if (r.chance(0.15)) addStalls(&p, r, n * 80);
@@ -392,7 +392,7 @@ static plan::Plan genC01b(uint64_t seed, const std::string& tier) {
   Rng r(seed);
   plan::Plan p;
   addKernelCfg(&p, r, seed, "c01b", true);
-  uint8_t own = addHandlerCfg(&p, r, false, false);
+  uint8_t own = addHandlerCfg(&p, r, false, true);
   int n = tier == "thorough" ? 10 + static_cast<int>(r.below(40)) : 5 + static_cast<int>(r.below(25));
   addTraffic(&p, r, n, own, 0.3);
   ReqGen g;
@@ -409,7 +409,7 @@ static plan::Plan genC02(uint64_t seed, const std::string& tier) {
   plan::Plan p;
   (void)tier;
   addKernelCfg(&p, r, seed, "c02", true);
-  uint8_t own = addHandlerCfg(&p, r, false, false);
+  uint8_t own = addHandlerCfg(&p, r, false, true);
   ReqGen g;
   int nreq = 1 + static_cast<int>(r.below(4));
   p.add("bus idle n=3");
@@ -435,7 +435,7 @@ static plan::Plan genC02e(uint64_t seed, const std::string& tier) {
   Rng r(sim::hcomb(base, scenario));
   plan::Plan p;
   addKernelCfg(&p, r, seed, "c02e", true);
-  uint8_t own = addHandlerCfg(&p, r, false, false);
+  uint8_t own = addHandlerCfg(&p, r, false, true);
   ReqGen g;
   Bytes m = g.make(r, own, static_cast<int>(scenario % 3) == 0 ? 0 : static_cast<int>(scenario % 3) == 1 ? 2 : 5);
   p.add("bus idle n=2");
@@ -454,7 +454,7 @@ static plan::Plan genC03(uint64_t seed, const std::string& tier) {
   Rng r(seed);
   plan::Plan p;
   addKernelCfg(&p, r, seed, "c03", true);
-  uint8_t own = addHandlerCfg(&p, r, true, false);
+  uint8_t own = addHandlerCfg(&p, r, true, true);
   int n = tier == "thorough" ? 20 + static_cast<int>(r.below(40)) : 10 + static_cast<int>(r.below(25));
   // dense traffic without idle SYNs so that requests meet scripted masters at the same SYN
   for (int i = 0; i < n; i++) {
@@ -480,7 +480,7 @@ static plan::Plan genC04(uint64_t seed, const std::string& tier) {
   Rng r(seed);
   plan::Plan p;
   addKernelCfg(&p, r, seed, "c04", true);
-  uint8_t own = addHandlerCfg(&p, r, false, false);
+  uint8_t own = addHandlerCfg(&p, r, false, true);
   int n = tier == "thorough" ? 5 + static_cast<int>(r.below(25)) : 3 + static_cast<int>(r.below(12));
   p.add("bus idle n=2");
   for (int i = 0; i < n; i++) {
@@ -495,6 +495,11 @@ static plan::Plan genC04(uint64_t seed, const std::string& tier) {
   ReqGen g;
   int nreq = 1 + static_cast<int>(r.below(6));
   int span = n * 70 + 200;
+  if (r.chance(0.2)) {
+    // the signal disappears for good: requests submitted afterwards must still complete (with an error)
+    p.add("bus sigoff ms=100000000");
+    span += 3000;
+  }
   addRequests(&p, r, &g, own, nreq, span, true, 100);
   for (int i = 0; i < nreq * 4; i++) p.add(reactLine(r, -1));
   int nf = static_cast<int>(r.below(4));
@@ -524,7 +529,7 @@ static plan::Plan genC04e(uint64_t seed, const std::string& tier) {
   Rng r(sim::hcomb(base, scenario) ^ 0x04e);
   plan::Plan p;
   addKernelCfg(&p, r, seed, "c04e", true);
-  uint8_t own = addHandlerCfg(&p, r, false, false);
+  uint8_t own = addHandlerCfg(&p, r, false, true);
   p.add("bus idle n=2");
   for (int i = 0; i < 4; i++) {
     Tg t = randomTelegram(r, -1, own);
@@ -546,7 +551,7 @@ static plan::Plan genC15(uint64_t seed, const std::string& tier) {
   Rng r(seed);
   plan::Plan p;
   addKernelCfg(&p, r, seed, "c15", false);
-  uint8_t own = addHandlerCfg(&p, r, false, false, 1);
+  uint8_t own = addHandlerCfg(&p, r, false, true, 1);
   uint8_t ownSlave = ref::slaveOf(own);
   // registered answers
   struct Ans { int src; uint8_t dst, pb, sb; Bytes id, data; };
